@@ -644,9 +644,14 @@ func (p *Packer) checkSymlinkDestination(dst, name, path string) error {
 	if err != nil {
 		realRoot = absRoot
 	}
-	realDir, err := filepath.EvalSymlinks(filepath.Dir(path))
+	// path is relative when dst was given that way.
+	absDir, err := filepath.Abs(filepath.Dir(path))
 	if err != nil {
-		realDir = filepath.Dir(path)
+		return fmt.Errorf("failed making path %q absolute: %w", path, err)
+	}
+	realDir, err := filepath.EvalSymlinks(absDir)
+	if err != nil {
+		realDir = absDir
 	}
 	resolved, ok := followSymlinks(realDir, target)
 	if !ok || within(realRoot, resolved) {
